@@ -23,11 +23,13 @@ where a test-level object hands out the contract-level one.  Emitted:
     cache_key_depth_only : bool          lookup key and store key are exactly the depth
 
 Fail-closed: each link of the chain must be called exactly once in the module, by name, with plain
-positional / keyword arguments; run_tests must build the test's FunctionContext from
-`with_devdoc(ctx.args, ...)` and the shared `ctx`; run_tests / run_test / run_message must not store into
-the ContractContext; run_contract initialises the caches with the post-setUp state alone
-(`ctx.frontier_states[0] = [setup_ex]`, `ctx.visited.add(get_state_id(setup_ex))`: Model.init_ctx) before its
-single call of run_tests.
+positional / keyword arguments; run_tests must build the test's FunctionContext from the single
+`with_devdoc(BASE, ...)` and the shared `ctx`, where BASE starts as `ctx.args` and is either never reassigned
+(`test_cfg_base_src := SrcContract`) or is the loop-carried result of with_devdoc itself (`SrcTest`); run_tests / run_test / run_message must not store into
+the ContractContext; run_contract initialises the frontier with the post-setUp state alone
+(`ctx.frontier_states[0] = [setup_ex]`) and either leaves `ctx.visited` empty or registers exactly that state
+(`ctx.visited.add(get_state_id(setup_ex))`): emitted as `setup_state_visited : bool` (Model.init_ctx) -- before
+its single call of run_tests.
 """
 import ast
 
@@ -225,25 +227,48 @@ def check_run_tests(tree):
     if not isinstance(kw["args"], ast.Name):
         _fail("run_tests: args= of the test's FunctionContext is not a plain name", kw["args"])
     cfg_name = kw["args"].id
-    defs = [n for n in _walk(fn) if isinstance(n, ast.Assign) and any(cfg_name in _target_names(t) for t in n.targets)]
-    if len(defs) != 1 or not (isinstance(defs[0].value, ast.Call) and isinstance(defs[0].value.func, ast.Name)
-                              and defs[0].value.func.id == "with_devdoc" and defs[0].value.args):
-        _fail(f"run_tests: {cfg_name} is not the single result of with_devdoc(...)", defs[0] if defs else fn)
-    base = defs[0].value.args[0]
-    base_src = _src(base)
-    if isinstance(base, ast.Name):
-        bdefs = [n for n in _walk(fn) if isinstance(n, ast.Assign) and any(base.id in _target_names(t) for t in n.targets)]
-        if len(bdefs) != 1:
-            _fail(f"run_tests: {base.id} assigned {len(bdefs)} times", fn)
-        base_src = _src(bdefs[0].value)
-    if base_src != f"{ps[0]}.args":
-        _fail(f"run_tests: the test config is derived from {base_src}, not from the contract-level config", defs[0])
-    return {"test_cfg": _src(defs[0].value), "contract_ctx": ps[0]}
+
+    def defs_of(name):
+        return [n for n in _walk(fn) if isinstance(n, ast.Assign) and any(name in _target_names(t) for t in n.targets)]
+
+    def is_devdoc(n):
+        return (isinstance(n.value, ast.Call) and isinstance(n.value.func, ast.Name) and n.value.func.id == "with_devdoc"
+                and len(n.value.args) >= 1)
+
+    dd = [n for n in defs_of(cfg_name) if is_devdoc(n)]
+    if len(dd) != 1 or len(calls_to(fn, "with_devdoc")) != 1:
+        _fail(f"run_tests: {cfg_name} is not the result of the single with_devdoc(...) call", fn)
+    loops = [n for n in _walk(fn) if isinstance(n, ast.For) and any(x is dd[0] for x in ast.walk(n))]
+    if len(loops) != 1:
+        _fail("run_tests: with_devdoc(...) is expected inside the single loop over the test functions", dd[0])
+    base = dd[0].value.args[0]
+    contract_cfg = f"{ps[0]}.args"
+    if _src(base) == contract_cfg:
+        base_defs = []
+    elif isinstance(base, ast.Name):
+        base_defs = defs_of(base.id)
+    else:
+        _fail("run_tests: the base config of with_devdoc(...) is neither a name nor the contract's config", base)
+    outside = [n for n in base_defs if not any(x is n for x in ast.walk(loops[0]))]
+    inside = [n for n in base_defs if any(x is n for x in ast.walk(loops[0]))]
+    if _src(base) != contract_cfg and not (len(outside) == 1 and _src(outside[0].value) == contract_cfg and len(outside[0].targets) == 1):
+        _fail(f"run_tests: the base config {_src(base)} does not start as the contract-level config", dd[0])
+    if not inside:
+        base_src = "SrcContract"          # every test: with_devdoc(<contract config>, funsig)
+    elif inside == [dd[0]]:
+        base_src = "SrcTest"              # loop-carried: with_devdoc(<config of the previous test>, funsig)
+    else:
+        _fail(f"run_tests: the base config {_src(base)} is reassigned inside the loop", inside[0])
+    # the test's own config must be used for nothing but the test (no other definition)
+    if [n for n in defs_of(cfg_name) if n is not dd[0] and n not in outside]:
+        _fail(f"run_tests: {cfg_name} has further definitions", fn)
+    return {"test_cfg": _src(dd[0].value), "contract_ctx": ps[0], "test_cfg_base_src": base_src}
 
 
 def check_run_contract(tree):
     """run_contract(ctx): ctx.frontier_states[0] = [setup_ex]; ctx.visited.add(get_state_id(setup_ex));
-    run_tests(ctx, setup_ex, ...) -- the initial caches hold the post-setUp state and nothing else (Model.init_ctx)"""
+    run_tests(ctx, setup_ex, ...) -- the initial caches hold the post-setUp state and nothing else (Model.init_ctx);
+    whether the visited.add is there is reported (setup_visited)"""
     fn = find_function(tree, "run_contract")
     ps = params_of(fn)
     if len(ps) != 1:
@@ -255,15 +280,22 @@ def check_run_contract(tree):
             isinstance(stores[0].value, ast.List) and len(stores[0].value.elts) == 1 and isinstance(stores[0].value.elts[0], ast.Name)):
         _fail(f"run_contract: expected the single store `{c}.frontier_states[0] = [<setup state>]`", stores[0] if stores else fn)
     setup_name = stores[0].value.elts[0].id
-    vis = [n for n in body if isinstance(n, ast.Call) and "visited" in _src(n.func)]
-    if len(vis) != 1 or _src(vis[0]) != f"{c}.visited.add(get_state_id({setup_name}))":
-        _fail(f"run_contract: expected the single call `{c}.visited.add(get_state_id({setup_name}))`", vis[0] if vis else fn)
+    # the visited set: either untouched (the setUp state is not "visited") or exactly `ctx.visited.add(get_state_id(setup_ex))`
+    vis = [n for n in body if isinstance(n, (ast.Attribute, ast.Name)) and (getattr(n, "attr", None) == "visited" or getattr(n, "id", None) == "visited")]
+    vis_calls = [n for n in body if isinstance(n, ast.Call) and "visited" in _src(n.func)]
+    if not vis:
+        setup_visited = False
+    elif len(vis) == 1 and len(vis_calls) == 1 and _src(vis_calls[0]) == f"{c}.visited.add(get_state_id({setup_name}))":
+        setup_visited = True
+    else:
+        _fail(f"run_contract: the visited set is neither left empty nor initialised by `{c}.visited.add(get_state_id({setup_name}))`", vis[0])
     rts = calls_to(fn, "run_tests")
-    if len(rts) != 1 or [_src(a) for a in rts[0].args[:2]] != [c, setup_name] or rts[0].lineno < stores[0].lineno or rts[0].lineno < vis[0].lineno:
+    if (len(rts) != 1 or [_src(a) for a in rts[0].args[:2]] != [c, setup_name] or rts[0].lineno < stores[0].lineno
+            or (vis_calls and rts[0].lineno < vis_calls[0].lineno)):
         _fail(f"run_contract: expected `run_tests({c}, {setup_name}, ...)` after the cache initialisation", rts[0] if rts else fn)
     if sum(1 for n in ast.walk(tree) if isinstance(n, ast.Name) and n.id == "run_tests") != 1:
         _fail("run_tests must be called exactly once in the module (by run_contract)")
-    return {"setup_state": setup_name}
+    return {"setup_state": setup_name, "setup_visited": setup_visited}
 
 
 def translate(src_text):
@@ -365,8 +397,15 @@ def translate(src_text):
         "(* ContractContext.frontier_states is read and written under the depth alone *)",
         f"Definition cache_key_depth_only : bool := {'true' if key_ok else 'false'}.",
         "",
+        "(* run_tests: the config of a test is with_devdoc(BASE, funsig); BASE is the contract's config for every test",
+        "   (SrcContract) or the config of the test that ran before it (SrcTest: annotations stack) *)",
+        f"Definition test_cfg_base_src : cfg_src := {rt['test_cfg_base_src']}.",
+        "",
+        "(* run_contract registers the id of the post-setUp state in ContractContext.visited *)",
+        f"Definition setup_state_visited : bool := {'true' if rc['setup_visited'] else 'false'}.",
+        "",
     ]
-    info = {"explore_cfg_src": cfg_src, "frontier_test_inputs": tainted, "cache_key_depth_only": key_ok,
+    info = {"explore_cfg_src": cfg_src, "frontier_test_inputs": tainted, "cache_key_depth_only": key_ok, "setup_state_visited": rc["setup_visited"], "test_cfg_base_src": rt["test_cfg_base_src"],
             "key_lookup": sorted(key_lookup), "key_store": sorted(key_store), "signatures": sigs, "run_tests": rt, "run_contract": rc,
             "target_cfg_provenance": sorted(cfg_lab)}
     return "\n".join(lines), info
